@@ -271,6 +271,7 @@ template <class Mesh> struct HistRun {
         bool expect_accept = valence_ok && (!check || loop_closed(r, hes));
         adopt(r);
         if (!expect_accept) {
+            if (check && valence_ok) ow.push_back("C08");   // "faces accepted with topology check are closed loops"
             if (f.is_valid() || r.m.n(BF) != before) ctx.fail(ow, "add_face-accepted-invalid", "halfedges " + vec_str(hes));
             return -1;
         }
@@ -678,6 +679,7 @@ template <class Mesh> struct HistRun {
     int expected_topo_type(const R &r) const;
     template <class Dst> void fault_load_into(const std::string &image, bool ascii, int variant, const std::string &what, long alloc_fail_at);
     std::string last_image, fault_what;
+    int ops_on_huge = 0;
     void op_bad(R &r, const Op &q);
 
     void set_owners(const std::string &k, const R &r) {
